@@ -90,12 +90,14 @@ def val2bytes (att : List (Nat × List Kind)) (v : PyVal) (ty : Ty) : R Bytes :=
               | none => .error .overflowE
             else .ok (toLE 8 b)
       else if l = cA then
-        match v, attsiz ty with
-        | _, .error e => .error e
-        | .ints xs, .ok n =>
-          -- `if len(val) != attsiz(att): raise ValueError` (fix 33b75ac)
-          if (xs.length : Int) = n then arrayToBytes n.toNat xs else .error .valueE
-        | _, _ => .error .typeE
+        match attsiz ty with
+        | .error e => .error e
+        | .ok n =>
+          match v with
+          | .ints xs =>
+            -- `if len(val) != attsiz(att): raise ValueError` (fix 33b75ac)
+            if (xs.length : Int) = n then arrayToBytes n.toNat xs else .error .valueE
+          | _ => .error .typeE
       else .error .unboundLocalE                    -- no branch assigns `valb`
 
 /-- `bytes2val(valb, att)` -/
